@@ -53,7 +53,7 @@ def register(ENTRIES, v, rng_guard, H):
     cross("non_negative_parafac_hals", [
         ("init", [("svd", {"init": "svd"}), ("random", {"init": "random"})]),
         ("sparsity", B2("_sp")), ("fixed_modes", B2("fixed_modes", [0])), ("nn_modes", [("all", {}), ("[0]", {"nn_modes": [0]})]),
-        ("normalize", B2("normalize_factors")), ("exact", B2("exact")),
+        ("normalize", B2("normalize_factors")), ("return_errors", B2("return_errors")),
     ], lambda d, **kw: H["call_parafac"](d, SH[0], SH[1], _fn=D.non_negative_parafac_hals, _pos=True, n_iter_max=1, tol=1e-300, **kw))
 
     # ---- constrained_parafac: every ordered pair of constraints on modes 0 and 1 (12*12) x init (2) = 288
@@ -95,7 +95,7 @@ def register(ENTRIES, v, rng_guard, H):
         ("algorithm", [("fista", {}), ("active_set", {"algorithm": "active_set"})]),
         ("init", [("svd", {"init": "svd"}), ("random", {"init": "random"})]),
         ("sparsity", B2("_sp")), ("core_sparsity", B2("core_sparsity_coefficient", 0.1)),
-        ("normalize", B2("normalize_factors")), ("exact", B2("exact")),
+        ("normalize", B2("normalize_factors")), ("return_errors", B2("return_errors")),
     ], lambda d, **kw: H["call_tucker"](d, SH[0], SH[1], _fn=D.non_negative_tucker_hals, _pos=True, n_iter_max=1, tol=1e-300, **kw))
 
     # ---- parafac2: 3*2*3*2*2 = 72
@@ -136,7 +136,7 @@ def register(ENTRIES, v, rng_guard, H):
         return {"V": NNLS.hals_nnls(UtM, UtU, n_iter_max=4, **kw)}
     cross("hals_nnls", [
         ("V", B2("_V")), ("sparsity", B2("sparsity_coefficient", 0.1)), ("ridge", B2("ridge_coefficient", 0.1)),
-        ("nonzero_rows", B2("nonzero_rows")), ("exact", B2("exact")), ("epsilon", B2("epsilon", 1e-6)),
+        ("nonzero_rows", B2("nonzero_rows")), ("epsilon", B2("epsilon", 1e-6)),
     ], call_hals)
 
     def call_fista(d, _x=False, **kw):
